@@ -126,8 +126,11 @@ type c06SynCase struct {
 func c06SynRun(c c06SynCase) (*eng.Fail, bool) {
 	al := synAlphabet()
 	var pins []parser.Instruction
+	addr := uint64(0x1000)
 	for i, k := range c.Seq {
-		pins = append(pins, parser.Instruction{Type: al[k].Typ, Addr: model.Addr(0x1000 + 4*i), Bytes: make([]byte, 4), Effects: al[k].Effs, Details: synDetails{al[k].Name}})
+		_ = i
+		pins = append(pins, parser.Instruction{Type: al[k].Typ, Addr: model.Addr(addr), Bytes: make([]byte, []int{4, 2, 6}[k%3]), Effects: al[k].Effs, Details: synDetails{al[k].Name}})
+		addr += uint64([]int{4, 2, 6}[k%3])
 		c.Txt = append(c.Txt, al[k].Name)
 	}
 	code, err := deps.NewCode(0x1000, pins)
